@@ -8,7 +8,8 @@ EXPLANATION = ("R09.1 on every success path of each privileged execute arm a rol
                "five contracts is classified; R09.3 the storage slot a guard reads is written only by instantiate and by the arm that "
                "transfers that role; R09.4 the non-owner role fields of Config (vAMM margin_engine / insurance_fund, insurance fund engine) are "
                "never initialised from info.sender, so a former owner holds no role after UpdateOwner."
-               " R09.5 the pause flag is written only by SetPause; R09.6 the vAMM's insurance fund alone may SetOpen whatever value is requested; R09.7 a role changed in Config is not reverted by a later Config store of the same call.")
+               " R09.5 the pause flag is written only by SetPause; R09.6 the vAMM's insurance fund alone may SetOpen whatever value is requested; R09.7 a role changed in Config is not reverted by a later Config store of the same call."
+               " R09.8 the owner's shutdown reaches every open vAMM and needs the owner role alone (R14.5 / R14.6 evaluated in a C14 context).")
 NOT_DECIDED = "cw-controllers internals (Admin::is_admin/assert_admin/execute_update_admin, Hooks::execute_*_hook) are trusted."
 
 # role alternatives: ('admin', CONST) | ('cfg', field) | ('self',)
